@@ -9,17 +9,21 @@ and in `VerifySMSCode`, and the argument of `fn(…)` in `genNonceStr`.  Keys ar
 character strings, so that collisions of distinct (area, phone) pairs are mirrored exactly.
 
 No clock: the three durations are used in their always/never regimes only (`Params`).
-The LRU cache is assumed not to evict (CacheSize is configured ≥ 1000 in every run).
+The cache is the LRU cache of `cache.LRUCache` with capacity `CacheSize` and entries of size 1: a list, most
+recently used first; `Set` (accepted send) moves to the front and evicts from the back, `Get` (verify) moves to
+the front, `Peek` (send) does not reorder.
 Fresh hashes (`random.MD5UUID()`) are modelled by the sequence number of the accepted send;
-codes of the real-sender mode (`random.SecGenNonceStr`) symbolically by the same number.
+codes of the real-sender mode (`random.SecGenNonceStr`) symbolically by the same number (`Code.sym k`), their
+text being `genNonce … "0123456789" CodeLen (rnd k)` for an abstract random source `rnd` (`Code.text`).
 -/
 namespace Nv.C19
 
 abbrev Str := List Char
 
 inductive KeyFmt
-  | dash      -- fmt.Sprintf("%s-%s", areaCode, phone)
-  | plain     -- fmt.Sprintf("%s%s", areaCode, phone)
+  | dashJoin   -- fmt.Sprintf("%s-%s", areaCode, phone)  (or areaCode + "-" + phone): not injective when '-' occurs in the area code
+  | plain      -- fmt.Sprintf("%s%s", areaCode, phone)   (or areaCode + phone): not injective
+  | lenPrefix  -- fmt.Sprintf("%d:%s%s", len(areaCode), areaCode, phone): injective for all strings
   | unknown
 deriving DecidableEq, Repr
 
@@ -44,20 +48,31 @@ structure Facts where
   sendFlow : Bool            -- SendSMSCode: fetch (peek) or new entry; checkSend error ⇒ ("", err); genCode; updateSend; Set; `if !Mock` SendCode; return hash, err
   verifyFlow : Bool          -- VerifySMSCode: fetch (get); absent ⇒ not exist; else checkVerify
   genCodeShape : Bool        -- genCode: real ⇒ SecGenNonceStr("0123456789", CodeLen); mock ⇒ last CodeLen bytes of phone, else left-padded with '0'
-  ownCache : Bool            -- NewSimpleLogic builds its own NewSimpleCache(config.CacheSize); fetchCache: Peek when peek else Get
-  nonceLoop : Bool           -- genNonceStr: `for i := 0; i < length; i++ { index = fn(…); WriteByte(baseStr[index]) }`; SecGenNonceStr passes r.Intn
+  ownCache : Bool            -- NewSimpleLogic builds its own NewSimpleCache(config.CacheSize); fetchCache (whole body): Peek when peek else Get, *vCache assertion
+  nonceLoop : Bool           -- genNonceStr: `for i := 0; i < length; i++ { index = fn(…); WriteByte(baseStr[index]) }`; SecGenNonceStr (whole body) seeds math/rand and passes r.Intn
+  sizeIsOne : Bool           -- `func (c *vCache) Size() int { return 1 }`: the LRU capacity counts entries
+  simpleCacheIsLRU : Bool    -- `NewSimpleCache(c) = &simpleCache{lru: cache.NewLRUCache(c)}`; Get/Peek/Set delegate to it
+  durationIdentity : Bool    -- tex: `func (i Duration) Duration() time.Duration { return time.Duration(i) }` (no unit conversion)
 deriving DecidableEq, Repr
 
-def Facts.expected : Facts := ⟨true, true, true, true, true, true, true, true, true⟩
+def Facts.expected : Facts := ⟨true, true, true, true, true, true, true, true, true, true, true, true⟩
 
 /-- configurations for which the property theorems are proved -/
-def Proved (c : Cfg) : Prop := c.sendKeyFmt = .dash ∧ c.verifyKeyFmt = .dash ∧ c.nonceBound = .len
+def Proved (c : Cfg) : Prop := c.sendKeyFmt = .lenPrefix ∧ c.verifyKeyFmt = .lenPrefix ∧ c.nonceBound = .len
 instance : DecidablePred Proved := fun c => by unfold Proved; exact inferInstance
+
+/-- decimal digits of `n` (what `%d` prints), most significant first; `fuel ≥ n` is always enough -/
+def decF : Nat → Nat → Str
+  | 0, n => [Nat.digitChar (n % 10)]
+  | f + 1, n => if n < 10 then [Nat.digitChar n] else decF f (n / 10) ++ [Nat.digitChar (n % 10)]
+
+def dec (n : Nat) : Str := decF n n
 
 /-- the cache key as the character string `fmt.Sprintf` produces -/
 def mkKey : KeyFmt → Str → Str → Str
-  | .dash, a, p => a ++ '-' :: p
+  | .dashJoin, a, p => a ++ '-' :: p
   | .plain, a, p => a ++ p
+  | .lenPrefix, a, p => dec a.length ++ ':' :: (a ++ p)
   | .unknown, a, p => a ++ '?' :: p
 
 /-- a verification code: literal text, or the (random) code generated at accepted send `k` -/
@@ -76,8 +91,9 @@ deriving DecidableEq, Repr
 
 /-- `Config` and the fake SMS sender, durations in their always/never regimes -/
 structure Params where
+  cap : Nat                  -- CacheSize: capacity of the LRU cache (every entry has Size() = 1)
   mock : Bool
-  codeLen : Nat
+  codeLen : Int              -- CodeLen; negative values: real mode ⇒ empty code, mock mode ⇒ genCode panics (out of the property's domain)
   maxCount : Int
   maxVerify : Int
   ttlExpired : Bool          -- TTL < 0: every verify is past the lifetime; otherwise TTL = 1000h: never
@@ -88,10 +104,18 @@ deriving DecidableEq, Repr
 
 abbrev Cache := List (Str × Entry)
 
-/-- newest binding first; `Set` conses, so older bindings of the same key are shadowed -/
+/-- most recently used binding first -/
 def lookup (k : Str) : Cache → Option Entry
   | [] => none
   | (k', e) :: rest => if k = k' then some e else lookup k rest
+
+def erase (k : Str) (c : Cache) : Cache := c.filter (fun b => decide (b.1 ≠ k))
+
+/-- `MoveToFront` of an existing element with its (mutated) value / `PushFront` of a new one -/
+def touch (k : Str) (e : Entry) (c : Cache) : Cache := (k, e) :: erase k c
+
+/-- `LRUCache.Set`: update in place or add, move to front, then evict from the back while size > capacity -/
+def setLRU (cap : Nat) (k : Str) (e : Entry) (c : Cache) : Cache := (touch k e c).take cap
 
 structure State where
   cache : Cache
@@ -105,6 +129,7 @@ inductive SendResult
   | smsFail (h : Nat)     -- the sender failed: the hash is returned *together with* the error, the code stays stored
   | tooFreq
   | countLimit
+  | panic                 -- mock mode with a negative CodeLen: `phone[l-CodeLen:]` is out of range
 deriving DecidableEq, Repr
 
 inductive VerifyResult
@@ -122,8 +147,8 @@ def mockCode (phone : Str) (n : Nat) : Str :=
 
 /-- `genCode` at accepted send number `k` -/
 def genCode (pr : Params) (phone : Str) (k : Nat) : Code :=
-  if pr.mock then .lit (mockCode phone pr.codeLen)
-  else if pr.codeLen = 0 then .lit [] else .sym k
+  if pr.mock then .lit (mockCode phone pr.codeLen.toNat)
+  else if pr.codeLen ≤ 0 then .lit [] else .sym k
 
 /-- `checkSend` on the fetched (or new) entry: `none` = passes, with the send counter to continue from -/
 def checkSend (pr : Params) (e : Option Entry) : Except SendResult Int :=
@@ -141,9 +166,10 @@ def sendK (pr : Params) (s : State) (key phone : Str) : State × SendResult :=
   match checkSend pr (lookup key s.cache) with
   | .error r => (s, r)
   | .ok cnt =>
+    if pr.mock && decide (pr.codeLen < 0) then (s, .panic) else
     let k := s.nsent + 1
     let e : Entry := ⟨cnt + 1, 0, genCode pr phone k, k⟩
-    (⟨(key, e) :: s.cache, k⟩, if !pr.mock && pr.smsFails then .smsFail k else .ok k)
+    (⟨setLRU pr.cap key e s.cache, k⟩, if !pr.mock && pr.smsFails then .smsFail k else .ok k)
 
 /-- `checkVerify` on an entry whose attempt counter was already incremented -/
 def checkVerify (pr : Params) (e : Entry) (code : Code) (hash : Nat) : VerifyResult :=
@@ -159,7 +185,7 @@ def verifyK (pr : Params) (s : State) (key : Str) (code : Code) (hash : Nat) : S
   | none => (s, .notExist)
   | some e =>
     let e' : Entry := { e with verifyCount := e.verifyCount + 1 }
-    (⟨(key, e') :: s.cache, s.nsent⟩, checkVerify pr e' code hash)
+    (⟨touch key e' s.cache, s.nsent⟩, checkVerify pr e' code hash)
 
 def send (c : Cfg) (pr : Params) (s : State) (area phone : Str) : State × SendResult :=
   sendK pr s (mkKey c.sendKeyFmt area phone) phone
@@ -203,5 +229,13 @@ def genNonce (b : NonceBound) (base : Str) (len : Nat) (vals : List Nat) : Optio
 
 /-- characters a uniformly random source can select (all positions below the bound) -/
 def reachable (b : NonceBound) (base : Str) : Str := base.take (boundOf b base.length).toNat
+
+def digits : Str := ['0', '1', '2', '3', '4', '5', '6', '7', '8', '9']
+
+/-- the text of a code: a literal, or for the code generated at accepted send `k` in real-sender mode what
+    `SecGenNonceStr("0123456789", CodeLen)` returns for the random values `rnd k` (`none` = panic) -/
+def Code.text (b : NonceBound) (pr : Params) (rnd : Nat → List Nat) : Code → Option Str
+  | .lit s => some s
+  | .sym k => genNonce b digits pr.codeLen.toNat (rnd k)
 
 end Nv.C19
